@@ -1,6 +1,7 @@
 import Amgcl.Proofs.AmgLast
 import Amgcl.Properties.C08
 import Amgcl.Properties.C08b
+import Amgcl.Proofs.AmgSizes
 /-!
 # C03 — every coarse level is the (re-scaled) Galerkin product; rebuild keeps it so
 
@@ -203,6 +204,28 @@ theorem rebuild_sequence (prm : Params) (pol : Policy K) (sm : Relax.Smoother K 
     exact cN.unique c1 (sameTransfers_trans (sameTransfers_symm sN) s1)
 
 end hierarchy
+
+section endToEnd
+variable {K S : Type} [Semiring K] [LT K] [DecidableLT K]
+
+/-- **End to end for plain aggregation** (C04's coarsening model plugged into the hierarchy model, `block_size = 1`,
+any `eps_strong`, any over-interpolation factor, either SpGEMM algorithm): for every square well-formed matrix the
+constructed hierarchy has strictly decreasing level sizes — hence at most `n` levels, which is also the termination
+argument of `do_init` — and every level matrix is again square and well formed. -/
+theorem aggregation_sizes_decrease (prm : Params) (norm : K → K) (aprm : AggrParams K) (hb : aprm.blockSize = 1)
+    (hm : aprm.minAggregate ≤ 1) (nt : Nat) (s : K) (sm : Relax.Smoother K S) (directOk : CRS K → Bool)
+    (A : CRS K) (hA : A.WF) (hsq : A.ncols = A.nrows) (ls : List (Level K S))
+    (h : build prm (aggregationPolicy norm aprm nt s) sm directOk A = .ok ls) :
+    (ls.map (·.rows)).Pairwise (· > ·) ∧ ∀ lv ∈ ls, lv.rows ≤ A.nrows := by
+  have hc := build_chain prm (aggregationPolicy norm aprm nt s) sm directOk A ls h
+  have := Chain.rows_decreasing_inv (fun M : CRS K => M.WF ∧ M.ncols = M.nrows)
+    (fun idx M P0 R0 hM ht => aggregation_step norm aprm hb hm nt s idx M P0 R0 hM ht)
+    (fun M P R => scaledGalerkin_nrows' nt s M P R)
+    hc ⟨sortRows_wf' A hA, by rw [sortRows_ncols, sortRows_nrows]; exact hsq⟩
+  rw [sortRows_nrows] at this
+  exact this
+
+end endToEnd
 
 -- non-vacuity: a two-level hierarchy built by the model on a 3x3 chain with one aggregate pair
 section example_
